@@ -20,7 +20,9 @@ EXTENDS Integers, Sequences, FiniteSets, TLC
 Labels == {"password", "ltkey", "tgtkey", "svckey", "subkey"}
 Objects == {"credentials", "keytab", "session", "cache", "ticket", "apreq", "krbpriv", "config", "error", "log"}
 Surfaces == {"json", "print", "diagnostics", "gob", "wire", "errortext", "logline"}
-Ops == {"login", "loginBadPassword", "getTicket", "getTicketUnknown", "serviceVerify", "decryptTicket", "krbPrivRoundTrip", "destroy"}
+Ops == {"login", "loginBadPassword", "getTicket", "getTicketUnknown", "serviceVerify", "decryptTicket", "krbPrivRoundTrip", "destroy",
+        "keyLookupMiss",        \* key look-ups that fail although the keytab holds keys of that principal (other kvno / etype), directly and through the service
+        "embedTicket"}          \* a ticket that was decrypted in place is embedded in other messages (additional tickets, KDC replies, ticket sequences) and encoded
 CONSTANTS MaxOps
 VARIABLES holds, trail, out
 vars == <<holds, trail, out>>
@@ -36,6 +38,8 @@ Effect(op, h) ==
     [] op = "serviceVerify" -> Add(Add(h, "ticket", {"svckey"}), "apreq", {"svckey", "subkey"})   \* the service decrypts ticket and authenticator
     [] op = "decryptTicket" -> Add(h, "ticket", {"svckey"})
     [] op = "krbPrivRoundTrip" -> Add(h, "krbpriv", {"subkey"})
+    [] op = "keyLookupMiss" -> Add(h, "error", {})                          \* the error names what was asked for, never what the keytab holds
+    [] op = "embedTicket" -> Add(h, "ticket", {"svckey"})
     [] op = "destroy" -> [h EXCEPT !["session"] = {}, !["cache"] = {}, !["credentials"] = {}]
 Do(op) == /\ Len(trail) < MaxOps /\ holds' = Effect(op, holds) /\ trail' = Append(trail, op) /\ UNCHANGED out
 \* the intended rendering: every surface drops every label (keys are json:"-", gob stores booleans, the wire form of a
